@@ -71,8 +71,7 @@ func dynamicReplace(in, out cty.Type) cty.Type {
 			for _, t := range in.AttributeTypes() {
 				types = append(types, t)
 			}
-			unifiedType, _ := unify(types, true)
-			return cty.Map(dynamicReplace(unifiedType, out.ElementType()))
+			return cty.Map(dynamicReplaceMembers(types, out.ElementType()))
 		}
 
 		return out
@@ -116,8 +115,7 @@ func dynamicReplace(in, out cty.Type) cty.Type {
 		}
 
 		if in.IsTupleType() {
-			unifiedType, _ := unify(in.TupleElementTypes(), true)
-			return cty.Set(dynamicReplace(unifiedType, out.ElementType()))
+			return cty.Set(dynamicReplaceMembers(in.TupleElementTypes(), out.ElementType()))
 		}
 
 		return out
@@ -128,8 +126,7 @@ func dynamicReplace(in, out cty.Type) cty.Type {
 		}
 
 		if in.IsTupleType() {
-			unifiedType, _ := unify(in.TupleElementTypes(), true)
-			return cty.List(dynamicReplace(unifiedType, out.ElementType()))
+			return cty.List(dynamicReplaceMembers(in.TupleElementTypes(), out.ElementType()))
 		}
 
 		return out
@@ -146,4 +143,21 @@ func dynamicReplace(in, out cty.Type) cty.Type {
 	default:
 		panic("unrecognized type " + out.FriendlyName())
 	}
+}
+
+// dynamicReplaceMembers is dynamicReplace for the element type of a collection
+// built from the members of a tuple or object type. The conversions to
+// collection types convert each member to the wanted element type first and
+// unify the types of the results afterwards, so the member types are taken
+// through dynamicReplace individually before they are unified here; unifying
+// the member types as given can pick a different type (a tuple of strings next
+// to a set of bools unifies to set of bool, but as elements of list(set(any))
+// they become set of string).
+func dynamicReplaceMembers(memberTys []cty.Type, outEty cty.Type) cty.Type {
+	replaced := make([]cty.Type, len(memberTys))
+	for i, ty := range memberTys {
+		replaced[i] = dynamicReplace(ty, outEty)
+	}
+	unifiedType, _ := unify(replaced, true)
+	return dynamicReplace(unifiedType, outEty)
 }
